@@ -2,6 +2,7 @@ package checks
 
 import (
 	"fmt"
+	"strings"
 	"sync"
 
 	"bklverif/gen"
@@ -20,6 +21,10 @@ var wideValues = false
 
 func encValue(g *gen.G, d int) any {
 	sc := func() any {
+		if g.P(0.06) {
+			// escaped dollars travel through the encoders untouched and are unescaped ONCE, at the end
+			return []any{"$$$$x", "a$$$$b", "$$x", "cost: $$5"}[g.N(4)]
+		}
 		return []any{"abc", "", 42, 1.5, true, "a b", "x=y", -7, "é", false, 0.1}[g.N(11)]
 	}
 	if d <= 0 || g.P(0.3) {
@@ -34,6 +39,9 @@ func encValue(g *gen.G, d int) any {
 		}
 		for i := nk; i > 0; i-- {
 			k := g.Pick([]string{"a", "b", "k", "opt", "e"})
+			if g.P(0.04) {
+				k = g.Pick([]string{"$$key", "$$$$k"})
+			}
 			if wide {
 				k = fmt.Sprintf("%s%02d", k, g.N(40))
 			}
@@ -138,6 +146,11 @@ func C14(r *Run) {
 		default: // $decode inverts $encode of the same format, over two chained evaluations
 			f := g.Pick([]string{"json", "yaml", "toml", "yml", "jsonl", "json-pretty"})
 			val := v
+			if hasDollar(val) {
+				// every evaluation unescapes "$$" once, so the two-evaluation inverse holds for
+				// $-free values only; escaped dollars are covered by the single-evaluation cases
+				val = mapStrings(val, func(x string) string { return strings.ReplaceAll(x, "$", "S") })
+			}
 			if f == "toml" {
 				m, ok := val.(map[string]any)
 				if !ok {
@@ -183,4 +196,15 @@ func C14(r *Run) {
 	r.Cov["distinct_nontrivial"] = len(sessions)
 	r.Cov["rule"] = "model: 16 values x every single transform (10 structural, 12 malformed, 5 codecs) and stacks of 2 (3 in the deeper bound), in $value / map-host / list-host form, bad argument types; driver: random values with random stacks of up to 3 transforms (codecs included), malformed arguments, and the inverse law over two chained evaluations for six format names; base64 / sha256 / format texts are supplied on request of the specification by crypto/sha256, encoding/base64, the independent decoders (dec:*) and, for enc:*, bkl's public encoder checked by the independent decoder (Codec events)"
 	r.Cov["checker_cmd"] = first(res.Cmds)
+}
+
+func hasDollar(v any) bool {
+	found := false
+	mapStrings(v, func(x string) string {
+		if strings.Contains(x, "$") {
+			found = true
+		}
+		return x
+	})
+	return found
 }
